@@ -32,7 +32,7 @@ from contracts.c13_mappers import (BASE_CFG, CHANGES_BY_DESIGN, kind_by_name,
 from pyvc import graphmodel as gm
 from pyvc import mapperlib as ml
 from pyvc.core import Contract, contract
-from pyvc.sym import EngineSignal
+from pyvc.sym import EngineFault, EngineSignal
 
 COPY_MAPPERS = ["CopyMapper", "CopyMapperWithExtraArgs", "Deduplicator",
                 "DataWrapperDeduplicator", "CachedMapAndCopyMapper",
@@ -472,9 +472,67 @@ def _special_programs():
         z = pt.zeros((n, 4)) * a
         return {"o": pt.where(pt.greater(a, 0), a + z, z), "p": pt.sum(
             a * pt.zeros(4), axis=1)}
+    def adv_index_mixed():
+        # index arrays behind / between non-array indices, each shared by
+        # several users (so that passes which rebuild or tag them matter)
+        x = pt.make_placeholder("x", (4, 3), np.float64)
+        y = pt.make_placeholder("y", (4, 3, 5), np.float64)
+        i = pt.make_placeholder("i", (2,), np.int64)
+        j = pt.make_placeholder("j", (2,), np.int64)
+        ii, jj = (i + 1) % 3, (j * 2) % 4
+        return {"a": x[2, ii], "b": x[:, ii], "c": y[1:3, ii, :],
+                "d": y[jj, :, ii], "e": x[jj], "f": x[jj, ii],
+                "g": y[jj, 1:, 2], "h": (x[:, ii] + 1) * x[:, ii]}
+
+    def mpms_chain():
+        # an output that is also a predecessor of a node with several
+        # materialised predecessors and several users
+        a = pt.make_placeholder("a", (4,), np.float64)
+        b = pt.make_placeholder("b", (4,), np.float64)
+        t = a + b
+        e = 2 * t
+        u = e + t
+        return {"e": e, "o": 3 * u, "p": u - 1}
+
+    def mpms_stored():
+        from pytato.tags import ImplStored
+        a = pt.make_placeholder("a", (4,), np.float64)
+        b = pt.make_placeholder("b", (4,), np.float64)
+        t = a + b
+        e = (2 * t).tagged(ImplStored())
+        u = e + t
+        v = (u * e).tagged(ImplStored())
+        return {"o": 3 * u + v, "p": (u - 1) * (v + t)}
     return {"rolls": rolls, "csr_in_call": csr_in_call,
             "shared_datawrappers": shared_datawrappers,
-            "unused_parts": unused_parts}
+            "unused_parts": unused_parts,
+            "adv_index_mixed": adv_index_mixed, "mpms_chain": mpms_chain,
+            "mpms_stored": mpms_stored}
+
+
+#: passes the property promises to be idempotent
+IDEMPOTENT = ("deduplicate", "eliminate_dead_code", "materialize_with_mpms")
+
+
+def _stored_nodes(d):
+    """The ImplStored-tagged nodes of a graph, as a multiset of node hashes
+    (what materialize_with_mpms decides)."""
+    from pytato.tags import ImplStored
+    from pytato.transform import CachedWalkMapper
+    found = []
+
+    class W(CachedWalkMapper):
+        def get_cache_key(self, e):
+            return id(e)
+
+        def get_function_definition_cache_key(self, e):
+            return id(e)
+
+        def post_visit(self, e):
+            if isinstance(e, pt.Array) and e.tags_of_type(ImplStored):
+                found.append(hash(e))
+    W()(d)
+    return sorted(found)
 
 
 def _inputs_by_identity(expr):
@@ -577,6 +635,22 @@ class TransformValues(Contract):
                      d_in[k].expr == ref[k] for k in ref)))
         h.oblige(f"transform.value.names[{inst['transform']}]",
                  z3.BoolVal(list(d_out) == list(d_in)))
+        if inst["transform"] in IDEMPOTENT:
+            # "applying it twice gives the same result as applying it once"
+            # (structural equality, tags included -- C04 decides equality)
+            try:
+                d_twice = fn(d_out)
+                same = (list(d_twice) == list(d_out) and all(
+                    d_twice[k].expr == d_out[k].expr for k in d_out)
+                    and _stored_nodes(d_twice) == _stored_nodes(d_out))
+                info = None if same else (
+                    f"stored after one application: "
+                    f"{len(_stored_nodes(d_out))}, after two: "
+                    f"{len(_stored_nodes(d_twice))}")
+            except Exception as e:  # noqa: BLE001
+                same, info = False, f"{type(e).__name__}: {e}"
+            h.oblige(f"transform.idempotent[{inst['transform']}]",
+                     z3.BoolVal(bool(same)), info=info)
         ref = raw
         if direct is not None and inst["transform"] != "inline_calls":
             # a pass that keeps the calls: their meaning is that of the
@@ -621,9 +695,18 @@ class TransformValues(Contract):
                  z3.BoolVal(not new_inputs), info=new_inputs)
         for name in d_in:
             e0, e1 = ref[name], d_out[name].expr
-            if e0.ndim != e1.ndim or e0.dtype != e1.dtype:
+            try:
+                nd1, dt1, shp1 = e1.ndim, e1.dtype, e1.shape
+            except Exception as e:  # noqa: BLE001
+                # the pass returned a graph whose nodes cannot even tell
+                # their shape (e.g. an index node put together wrongly)
+                h.fail(f"transform.value.output-well-formed[{T_}]",
+                       f"{name}: .shape/.dtype of the returned expression "
+                       f"raises {type(e).__name__}: {e}")
+                continue
+            if e0.ndim != nd1 or e0.dtype != dt1:
                 h.fail(f"transform.value.shape-dtype[{T_}]",
-                       f"{name}: {e0.shape}/{e0.dtype} vs {e1.shape}/{e1.dtype}")
+                       f"{name}: {e0.shape}/{e0.dtype} vs {shp1}/{dt1}")
                 continue
             for d_, (s0, s1) in enumerate(zip(e0.shape, e1.shape, strict=True)):
                 h.oblige(f"transform.value.shape[{T_}]",
@@ -631,7 +714,16 @@ class TransformValues(Contract):
             ivars = [z3.Int(f"i{d_}") for d_ in range(e0.ndim)]
             box = in_box(ivars, e0.shape)
             want = pytato_den(h, arrays, e0, ivars)
-            got = pytato_den(h, arrays, e1, ivars)
+            try:
+                got = pytato_den(h, arrays, e1, ivars)
+            except (EngineFault, AssertionError, ValueError, IndexError,
+                    TypeError) as e:
+                # the reference denotes (line above); the *returned* graph
+                # has no meaning: ranks, index counts or shapes do not fit
+                h.fail(f"transform.value.output-well-formed[{T_}]",
+                       f"{name}: the returned expression has no denotation: "
+                       f"{type(e).__name__}: {e}")
+                continue
             if h.canary == "output-plus-one" and z3.is_expr(want):
                 want = want + 1
             oblige_equal_den(h, f"transform.value.[{T_}]", box, got, want,
@@ -664,6 +756,19 @@ except NotImplementedError:
     not_reproduced("explicitly unsupported")
 except Exception as e:
     reproduced(f"{{tname}} raised {{type(e).__name__}}: {{e}}")
+from contracts.c05_transforms import IDEMPOTENT, _stored_nodes
+if tname in IDEMPOTENT and "idempotent" in OBLIGATION:
+    try:
+        d2 = _transformations()[tname](d_out)
+    except Exception as e:
+        reproduced(f"second application of {{tname}} raises {{type(e).__name__}}: {{e}}")
+    diff = [k for k in d_out if not (d2[k].expr == d_out[k].expr)]
+    if list(d2) != list(d_out) or diff or _stored_nodes(d2) != _stored_nodes(d_out):
+        reproduced(f"{{tname}} applied twice differs from {{tname}} applied once on "
+                   f"program '{{prog}}': outputs that differ {{diff}}; stored "
+                   f"nodes after one application {{len(_stored_nodes(d_out))}}, "
+                   f"after two {{len(_stored_nodes(d2))}}")
+    not_reproduced("applying it twice equals applying it once")
 if direct is not None and tname != "inline_calls":
     d_out = pt.inline_calls(pt.tag_all_calls_to_be_inlined(d_out))
 rng = np.random.default_rng(3)
